@@ -138,6 +138,62 @@ def actnorm_harness(op, training, initialized, shape):
     return hn
 
 
+def actnorm_history_harness(first, shape):
+    """two-step histories from the CONSTRUCTOR state (guards against hidden state that the abstract pre-states do not represent):
+    <first> in {eval_forward, inverse, save_load}, then the first training-mode forward, which must initialise"""
+    D = shape[1]
+
+    def run(h, ctx):
+        t = ActNorm(D)
+        x0 = h.inp("x0", shape); x = h.inp("x", shape)
+        cols = np.moveaxis(P(x), 1, 0).reshape(D, -1)
+        for j in range(D):
+            n = cols.shape[1]; mu = _sum(cols[j]) / n
+            ctx.assume(_sum([(v - mu) * (v - mu) for v in cols[j]]) > 0)
+        if first == "eval_forward":
+            t.eval(); t.forward(x0)
+        elif first == "inverse":
+            t.train(); t.inverse(x0)
+        elif first == "save_load":
+            t2 = ActNorm(D); t2.load_state_dict(t.state_dict()); t = t2
+        untouched = not bool(t.initialized)
+        t.train()
+        out, ld = t.forward(x)
+        h.t = t
+        return out, untouched
+
+    def post(h, ctx, value):
+        out, untouched = value
+        ensure(h, ctx, "C14.actnorm.not-initialised-before-first-training-forward", z3.BoolVal(bool(untouched)))
+        ensure(h, ctx, "C14.actnorm.initialized-flag", z3.BoolVal(bool(h.t.initialized)))
+        cols_o = np.moveaxis(P(out), 1, 0).reshape(D, -1)
+        for j in range(D):
+            n = cols_o.shape[1]
+            ensure(h, ctx, "C14.actnorm.init-zero-mean", _sum(cols_o[j]) == 0)
+            ensure(h, ctx, "C14.actnorm.init-unit-variance", _sum([v * v for v in cols_o[j]]) == n - 1)
+
+    def native_call(h, inp):
+        t = ActNorm(D).double()
+        x0 = torch.tensor(np.asarray(inp["x0"])); x = torch.tensor(np.asarray(inp["x"]))
+        if first == "eval_forward": t.eval(); t.forward(x0)
+        elif first == "inverse": t.train(); t.inverse(x0)
+        elif first == "save_load":
+            t2 = ActNorm(D).double(); t2.load_state_dict(t.state_dict()); t = t2
+        t.train()
+        out, ld = t.forward(x)
+        return t, out
+
+    def native_clauses(h, inp, r):
+        t, out = r
+        flat = out.transpose(0, 1).reshape(D, -1)
+        return {"C14.actnorm.initialized-flag": bool(t.initialized), "C14.actnorm.init-zero-mean": bool(torch.allclose(flat.mean(1), torch.zeros(D, dtype=flat.dtype), atol=1e-7)),
+                "C14.actnorm.init-unit-variance": bool(torch.allclose(flat.var(1), torch.ones(D, dtype=flat.dtype), atol=1e-6))}
+    hn = Harness(f"ActNorm_history[{first},then_training_forward,shape={'x'.join(map(str, shape))}]", run, post, native_call=native_call, native_clauses=native_clauses,
+                 sample=lambda h, rng: {"x0": rng.normal(size=shape), "x": rng.normal(size=shape) * 2 + 1}, functions=[ActNorm.forward, ActNorm._initialize, ActNorm.__init__])
+    hn.native_float32 = False
+    return hn
+
+
 def batchnorm_harness(op, training, B):
     D = 2
 
@@ -235,6 +291,9 @@ def norm_harnesses(tier):
         for training, initialized in itertools.product([True, False], repeat=2):
             for shape in (shapes if op in ("forward", "inverse") else shapes[:1]):
                 hs.append(actnorm_harness(op, training, initialized, shape))
+    for first in ("eval_forward", "inverse", "save_load"):
+        for shape in shapes[:1] + shapes[2:3]:
+            hs.append(actnorm_history_harness(first, shape))
     for op in ("forward", "inverse", "save_load"):
         for training in (True, False):
             for B in ((2, 3) if op == "forward" else (2,)):
